@@ -1,5 +1,5 @@
 use poulpy_hal::{
-    layouts::{Data, DataMut, DataRef, FillUniform, ReaderFrom, WriterTo},
+    layouts::{Backend, Data, DataMut, DataRef, FillUniform, Module, ReaderFrom, WriterTo},
     source::Source,
 };
 
@@ -203,7 +203,18 @@ where
     }
 }
 
-// module-only API: decompression is provided by `GGLWEToGGSWKeyDecompress` on `Module`.
+impl<B: Backend> GGLWEToGGSWKeyDecompress for Module<B> where Self: GGLWEDecompress {}
+
+/// Mutable access to the per-cell seeds of entry `i` (the `to_mut()` view holds clones of the seed vectors).
+pub trait GGLWEToGGSWKeyCompressedSeedMut {
+    fn seed_mut(&mut self, i: usize) -> &mut Vec<[u8; 32]>;
+}
+
+impl<D: DataMut> GGLWEToGGSWKeyCompressedSeedMut for GGLWEToGGSWKeyCompressed<D> {
+    fn seed_mut(&mut self, i: usize) -> &mut Vec<[u8; 32]> {
+        &mut self.keys[i].seed
+    }
+}
 
 /// Converts a compressed GGLWE-to-GGSW key to an immutably-borrowed variant.
 pub trait GGLWEToGGSWKeyCompressedToRef {
